@@ -76,9 +76,13 @@ func ClassifyWord(w string) string {
 // ^= / ~=): such inputs are only subject to the token-truth invariants.
 func RefLex(q string) (toks []RefTok, ok bool) {
 	ok = true
-	if strings.ContainsAny(q, "\v\f") {
-		// blanks other than space, tab and line end: not described
-		ok = false
+	for _, r := range q {
+		if unicode.IsSpace(r) && r != ' ' && r != '\t' && r != '\n' && r != '\r' {
+			// blanks other than space, tab and line end (vertical tab, form
+			// feed, NBSP, U+2000..): not described
+			ok = false
+			break
+		}
 	}
 	i := 0
 	n := len(q)
